@@ -138,6 +138,9 @@ def c15():
     r = _first(recs, lambda r: r["inside"] == 1 and r["r0"] != r["r1"])
     r["inv"][1] = (r["inv"][1] + 5) % 86400000
     yield "inverted instant 5 ms off", "TimeTrace", "TimeC15.cfg", r, "C15_InvertWithin1ms"
+    r = _first(recs, lambda r: r["y"][0] != 0 and len(r["y"][1]) >= 3)
+    r["y"][1][0] = (r["y"][1][0] + 5000) % 10000           # mapped position changed by 5e-6 (x 1e9 units: 5000)
+    yield "a mapped position changed by 5e-6", "TimeTrace", "TimeC15.cfg", r, "C15_Proportional"
 
 
 def c16():
